@@ -53,6 +53,15 @@ func EncFloat(v float64) any {
 		}
 	}
 	m := M{"t": "float", "f": strconv.FormatFloat(v, 'g', -1, 64)}
+	if math.Abs(v) >= 1<<53 {
+		// every double of this magnitude is an integer: its exact value (what toInt / % / comparisons see) goes with it
+		z, _ := new(big.Float).SetFloat64(v).Int(nil)
+		ds := []any{}
+		for _, c := range new(big.Int).Abs(z).String() {
+			ds = append(ds, int(c-'0'))
+		}
+		m["iz"] = M{"neg": z.Sign() < 0, "d": ds}
+	}
 	if FloatText != nil {
 		m["txt"] = Cps(FloatText(v)) // a logged primitive: the text the LIBRARY's encoder writes for this double
 	}
